@@ -45,3 +45,18 @@ Theorem C13_abi_transparent_arm_a32 : forall src fake m regs,
 Proof. intros src fake m regs A B C D E. destruct (arm_reach_a32 12 src fake m regs (or_intror eq_refl) A B C D E) as (_ & st & X & L & _ & R & M).
   exists st. auto. Qed.
 Print Assumptions C13_abi_transparent_arm_a32.
+
+(* the constants of the model's encoder are those of the current Rust source (gen/SrcConsts.v is regenerated from it on every run) *)
+From Inj Require Import SrcTie.
+From Inj.gen Require Import SrcConsts.
+Theorem C13_source_long_form_uses_rax : forall oc from to off, branch_offset oc from to = Some off ->
+  (-2147483648 <=? off) && (off <=? 2147483647) = false ->
+  branch oc from to = Some (MOV_RAX_OPCODE ++ le_bytes 8 (to mod W) ++ JMP_RAX_OPCODE).
+Proof. exact src_amd64_long. Qed.
+Print Assumptions C13_source_long_form_uses_rax.
+Theorem C13_source_arm64_scratch : forall fake, tramp_abs_words fake =
+  let x := to_bits 5 ARM64_SCRATCH in
+  [ bits_val (emit_movz_from_address fake 0 T (to_bits 2 0) x); bits_val (emit_movk_from_address fake 16 T (to_bits 2 1) x);
+    bits_val (emit_movk_from_address fake 32 T (to_bits 2 2) x); bits_val (emit_movk_from_address fake 48 T (to_bits 2 3) x); bits_val (emit_br x) ].
+Proof. exact src_arm64_scratch. Qed.
+Print Assumptions C13_source_arm64_scratch.
